@@ -46,7 +46,8 @@ cbor_item_t* cbor_load(cbor_data source, size_t source_size,
       .indef_break = &cbor_builder_indef_break_callback};
 
   if (source_size == 0) {
-    result->error.code = CBOR_ERR_NODATA;
+    *result = (struct cbor_load_result){
+        .read = 0, .error = {.code = CBOR_ERR_NODATA, .position = 0}};
     return NULL;
   }
   struct _cbor_stack stack = _cbor_stack_init();
